@@ -524,6 +524,27 @@ def sinks(mod):
             yield n, ["OuterVar"], "names", n.args[2]
 
 
+def _class_alternatives(v):
+    """asty.A | (asty.A if c else asty.B) | {k: asty.A, ...}[x] | lambda wrapping asty.A(...) -> class names, else None."""
+    d = dotted(v) if isinstance(v, ast.Attribute) else None
+    if d and d.startswith("asty.") and d.count(".") == 1 and d.split(".")[1][:1].isupper():
+        return [d.split(".")[1]]
+    if isinstance(v, ast.IfExp):
+        a, b = _class_alternatives(v.body), _class_alternatives(v.orelse)
+        return None if a is None or b is None else a + b
+    if isinstance(v, ast.Subscript) and isinstance(v.value, ast.Dict):
+        out = []
+        for x in v.value.values:
+            a = _class_alternatives(x)
+            if a is None:
+                return None
+            out += a
+        return out
+    if isinstance(v, ast.Lambda) and isinstance(v.body, ast.Call):
+        return _class_alternatives(v.body.func)
+    return None
+
+
 def _classes_of_var(mod, call):
     """A call through a local variable holding asty classes: node = asty.A if c else asty.B; node(...)."""
     f = mod.enclosing_func(call)
@@ -533,10 +554,10 @@ def _classes_of_var(mod, call):
     out = []
     for n in ast.walk(f):
         if isinstance(n, ast.Assign) and any(isinstance(t, ast.Name) and t.id == name for t in n.targets):
-            for x in ast.walk(n.value):
-                d = dotted(x) if isinstance(x, ast.Attribute) else None
-                if d and d.startswith("asty.") and d.count(".") == 1 and d.split(".")[1][:1].isupper():
-                    out.append(d.split(".")[1])
+            cs = _class_alternatives(n.value)
+            if cs is None:
+                return None  # the variable also holds something that is not a node class
+            out.extend(cs)
     if out:
         return sorted(set(out))
     # parameter `node` of compile_function_node: resolved through its callers
